@@ -1214,7 +1214,7 @@ func (s *scen) stepDrain(st *Step) {
 			break
 		}
 		got := false
-		if !w.evClosed {
+		if !w.evClosed && st.Only != "err" {
 			// take everything that is ready on Events before looking at Errors again
 			for len(vals) < max {
 				v := s.tryRecv(w, "ev")
@@ -1231,7 +1231,7 @@ func (s *scen) stepDrain(st *Step) {
 				}
 			}
 		}
-		if !w.errClosed {
+		if !w.errClosed && st.Only != "ev" {
 			v := s.tryRecv(w, "err")
 			if v["t"] != "none" {
 				vals = append(vals, v)
@@ -1246,8 +1246,14 @@ func (s *scen) stepDrain(st *Step) {
 			break
 		}
 	}
+	if st.Only != "" && end == "idle" {
+		end = "partial" // the other channel was not looked at: nothing is settled
+	}
 	if len(vals) >= max {
 		end = "max"
+		if st.Max > 0 {
+			end = "partial" // the scenario asked for at most Max values
+		}
 	}
 	s.emit(J{"k": "drain", "w": st.W, "vals": vals, "end": end, "free": false})
 }
